@@ -629,6 +629,22 @@ def r04c(ck, prog):
             ck.violation("R04c", "R04c/merge_msa/%s" % need, site(prog, M),
                          "merge_msa can succeed without %s: the merged msa keeps the kind/status/profile tables of the first file" % need,
                          prog.config)
+    # the recomputation looks at the merged set: no store that moves a record into the accumulated msa (sequences[...] = ...,
+    # numseq = ... / numseq++) is still to come when detect_aligned / set_sip_nsip run
+    appends = [a for a in M.body.walk() if ((a.k == "BinaryOperator" and a.d["op"] == "=") or a.k == "CompoundAssignOperator" or
+                                             (a.k == "UnaryOperator" and a.d["op"] in ("++", "--"))) and
+               any(m_.k == "MemberExpr" and m_.d.get("rec") == "msa" and m_.d.get("field") in ("sequences", "numseq") for m_ in a.kids[0].walk())]
+    for need in ("detect_aligned", "set_sip_nsip"):
+        for c in M.body.calls(need):
+            cp = cfg.position(c)
+            late = [a for a in appends if cfg.position(a) is not None and cp is not None and cfg.reaches(cp, cfg.position(a))]
+            n += 1
+            ck.inst("R04c", site(prog, c, need), "merge_msa runs %s %s the records of the new file have been appended" % (need, "BEFORE" if late else "after"), prog.config)
+            if late:
+                ck.violation("R04c", "R04c/merge_msa/%s-early" % need, site(prog, c),
+                             "merge_msa runs %s and appends records afterwards (%s): the status / tables are computed for the records of the "
+                             "earlier files only - gaps in the file just read are not seen and survive into the alignment" % (
+                                 need, late[0].text()[:40]), prog.config)
     # histogram merge is additive
     hist = [x for x in M.body.find("CompoundAssignOperator") if "letter_freq" in x.kids[0].text()]
     if not any(x.d["op"] == "+=" and "letter_freq" in x.kids[1].text() for x in hist):
@@ -784,6 +800,7 @@ def r04l(ck, prog):
 
 def run(ck, progs):
     describe(ck)
+    ck.rule("R04m", "no reader identifies the record a block row belongs to by a prefix comparison of names (= R06c): which record a row goes to must not depend on the presentation")
     ck.rule("R04l", "no failure exit of kalign_read_input (run once per input file) is taken for exactly one record read so far; the count is judged after the merge")
     ck.rule("R04k", "input positions are numbered once, over the merged set of records (= R01b): msa_seq.rank is assigned a position only by the input check that runs after all files are read, so records split over several files keep one numbering")
     ck.rule("R04h", "read_file_stdin reads whole physical lines (no fixed-size line buffer) and keeps all bytes up to the first control character")
@@ -800,6 +817,8 @@ def run(ck, progs):
         ck.attempt(r04h, ck, prog)
         ck.borrow(c01.r01b, prog, "R04k", ("R01b",))
         ck.attempt(r04l, ck, prog)
+        from . import c06
+        ck.borrow(c06.r06c, prog, "R04m", ("R06c",))
     return ("Sibling cross-check of the three readers' classification chains (predicate, actions, histogram, same "
             "character); span of every loop over msa_seq.gaps and coverage of the totals deciding the alignment status; "
             "who assigns ALN_STATUS_UNALIGNED; who touches gaps before the merge phase; stores into kalign_read_input's "
